@@ -83,12 +83,14 @@ func c19Alphabet(slots []c19slot, maxBatch int) func(m *model.Model) []drv.Op {
 func C19(run *ev.Run, tier string) map[string]interface{} {
 	thorough := tier == "thorough"
 	dl := deadline(tier)
-	slots := []c19slot{{"tba", hKey("k1")}, {"tba", hKey("k2")}, {"tbb", hKey("k1")}}
+	// (tbb has a hash and a range key: its two slots share the partition value)
+	slots := []c19slot{{"tba", hKey("k1")}, {"tba", hKey("k2")}, {"tbb", hrKey("k1", "r1")}}
 	maxBatch := 3
 	if thorough {
-		slots = append(slots, c19slot{"tbb", hKey("k2")})
+		slots = append(slots, c19slot{"tbb", hrKey("k1", "r2")})
 		maxBatch = 4
 	}
+	slots2 := []c19slot{{"tbb", hrKey("k1", "r1")}, {"tbb", hrKey("k1", "r2")}, {"tba", hKey("k1")}}
 	u := Universe{Keys: map[string][]val.Item{}}
 	for _, s := range slots {
 		u.Keys[s.table] = append(u.Keys[s.table], s.key)
@@ -96,12 +98,32 @@ func C19(run *ev.Run, tier string) map[string]interface{} {
 	for i := 0; i < 26; i++ {
 		u.Keys["tba"] = append(u.Keys["tba"], hKey(fmt.Sprintf("big%02d", i)))
 	}
+	for _, s := range slots2 {
+		dup := false
+		for _, k := range u.Keys[s.table] {
+			dup = dup || k.Canon() == s.key.Canon()
+		}
+		if !dup {
+			u.Keys[s.table] = append(u.Keys[s.table], s.key)
+		}
+	}
 	cfg := drv.TableCfg{Hash: "h", HashT: "S", Billing: "PAY_PER_REQUEST", GSI: []drv.IndexCfg{{Name: "gsi", Hash: "a", HashT: "S"}}}
+	cfgHR := drv.TableCfg{Hash: "h", HashT: "S", Range: "r", RangeT: "S", Billing: "PAY_PER_REQUEST", GSI: []drv.IndexCfg{{Name: "gsi", Hash: "a", HashT: "S"}}}
 	total, per := exploreBoth(run, func(newImpl func() drv.Driver, dn string) []mc.Sys {
-		return []mc.Sys{{
+		sys2 := mc.Sys{
+			Name:      "C19/same-partition",
+			NewImpl:   newImpl,
+			Init:      []drv.Op{{K: drv.KCreate, Table: "tba", Cfg: &cfg}, {K: drv.KCreate, Table: "tbb", Cfg: &cfgHR}},
+			Alphabet:  c19Alphabet(slots2, 2),
+			Observe:   func(m *model.Model) []drv.Op { return ObserveOps(m, u) },
+			SigOf:     mc.DefaultSig("C19"),
+			MaxStates: 200000,
+			Deadline:  dl,
+		}
+		return []mc.Sys{sys2, {
 			Name:     "C19",
 			NewImpl:  newImpl,
-			Init:     []drv.Op{{K: drv.KCreate, Table: "tba", Cfg: &cfg}, {K: drv.KCreate, Table: "tbb", Cfg: &cfg}},
+			Init:     []drv.Op{{K: drv.KCreate, Table: "tba", Cfg: &cfg}, {K: drv.KCreate, Table: "tbb", Cfg: &cfgHR}},
 			Alphabet: c19Alphabet(slots, maxBatch),
 			Observe:  func(m *model.Model) []drv.Op { return ObserveOps(m, u) },
 			SigOf:    mc.DefaultSig("C19"),
@@ -116,7 +138,7 @@ func C19(run *ev.Run, tier string) map[string]interface{} {
 	cov := total.Coverage()
 	cov["per_system"] = per
 	cov["repeated_key_batches"] = fmt.Sprintf("%d runs (sizes 13, 16, 20, 25 over 2 and 3 tables, 6 fresh clients each, both SDK clients): a key written several times in one batch ends as its last request says, or the batch is rejected as a whole; rejected: %d", dupRuns, dupRejected)
-	cov["alphabet"] = fmt.Sprintf("every BatchWriteItem of 1..%d requests over %d (table,key) slots of two tables x {put v1, put v2, delete} without duplicate keys, batches of 25 and 26 puts, every BatchGetItem over a non-empty subset of the slots (present and absent keys), single Put/Del", maxBatch, len(slots))
+	cov["alphabet"] = fmt.Sprintf("every BatchWriteItem of 1..%d requests over %d (table,key) slots of two tables (one with a hash and a range key, two slots sharing its partition value) x {put v1, put v2, delete} without duplicate keys, batches of 25 and 26 puts, every BatchGetItem over a non-empty subset of the slots (present and absent keys), single Put/Del", maxBatch, len(slots))
 	cov["oracle"] = "reference model applies the batch item by item (the twin of the decomposition): equal full observation afterwards; BatchGet Responses = multiset of the individual GetItem results, absent keys nowhere, UnprocessedKeys empty"
 	return cov
 }
